@@ -39,7 +39,7 @@ pub fn run(ctx: &mut Ctx) {
     let corpus = load_corpus();
     match fam.as_str() {
         "c04" => {
-            let empty = Corpus { sentences: vec![], fixtures: vec![], vocab: vec![] };
+            let empty = Corpus { sentences: vec![], fixtures: vec![], vocab: vec![], phrases: vec![] };
             let planted_ok: Vec<&str> = crate::c04::PLANTED.iter().copied().filter(|w| !fst.contains_word_str(w)).collect();
             let fes = Fe::all();
             for i in 0..n {
@@ -230,6 +230,25 @@ pub fn run(ctx: &mut Ctx) {
                 }
                 let mut cfg: harper_core::linting::LintGroupConfig = serde_json::from_value(serde_json::Value::Object(linters.clone())).expect("config");
                 let pool: Vec<String> = (0..r.range(4, 9)).map(|_| if r.chance(1, 5) { gen_clause(&mut r, &corpus, 5, 3).replace('\n', " ") } else { r.pick(&corpus.sentences).replace('\n', " ") }).collect();
+                // the same clause in another capitalisation, and common misspellings in both (what a word cache keyed
+                // too coarsely would mix up)
+                let mut pool = pool;
+                for i in 0..pool.len() {
+                    if r.chance(1, 3) {
+                        let mut cs = pool[i].chars();
+                        if let Some(f) = cs.next() {
+                            let t: String = if f.is_uppercase() { f.to_lowercase().chain(cs).collect() } else { f.to_uppercase().chain(cs).collect() };
+                            pool.push(t);
+                        }
+                    }
+                }
+                if r.chance(1, 2) {
+                    let w = *r.pick(&["definately", "accomodate", "arguement", "concious", "enviroment", "independant", "tommorow", "langauge", "documnet", "publically", "recieve", "seperate"]);
+                    let mut cs = w.chars();
+                    let cap: String = cs.next().map(|f| f.to_uppercase().chain(cs).collect()).unwrap_or_default();
+                    pool.push(format!("{cap} is how they spell it."));
+                    pool.push(format!("They spell it {w} here."));
+                }
                 let parser = fe.wrapped(Wrap::None, &fst);
                 let mut steps = Vec::new();
                 let initial = json!({"dialect": dname, "linters": linters.clone()});
